@@ -16,7 +16,8 @@ import json
 
 class SSEConfig(metaclass=abc.ABCMeta):
     def __init__(self, *args, **kwargs):
-        pass
+        if args and isinstance(args[0], dict):
+            SSEConfig.check_param_positive(args[0])
 
     DEFAULT_CONFIG = {}
 
@@ -50,6 +51,15 @@ class SSEConfig(metaclass=abc.ABCMeta):
         for param_field in param_field_to_check:
             if config_dict.get(param_field, -1) == -1:
                 raise ValueError("Parameter {} is missing".format(param_field))
+
+    @staticmethod
+    def check_param_positive(config_dict: dict):
+        """Sizes, lengths, counts and ratios must be positive (-1 marks a parameter that is not given)"""
+        for param_field, value in config_dict.items():
+            if not param_field.startswith("param_") or isinstance(value, bool):
+                continue
+            if isinstance(value, (int, float)) and value <= 0 and value != -1:
+                raise ValueError("Parameter {} must be positive".format(param_field))
 
     def __getitem__(self, item):
         return getattr(self, item)
